@@ -1,0 +1,14 @@
+//go:build verif
+
+package rtpsimpleaudio
+
+// Contracts checked by /verif/govc (see /verif/DESIGN.md). Comment-only file.
+
+//@ func (e *Encoder) Encode
+//@   opt frame-tag=C06
+//@   requires e.SSRC != nil
+//@   ensures[C06] err == nil && ret != nil && fresh(ret)
+//@   ensures[C06] ret.SequenceNumber == old(e.sequenceNumber) && e.sequenceNumber == old(e.sequenceNumber) + 1
+//@   ensures[C06] ret.PayloadType == e.PayloadType && ret.SSRC == *e.SSRC && !ret.Marker
+//@   ensures[C03] sameslice(ret.Payload, frame)
+//@   modifies e.sequenceNumber, fresh
